@@ -342,6 +342,39 @@ slab_fixed (int which)
 }
 #define NFIXED 15
 
+/* a forbidden byte far into a long setting: valid settings followed by a tail (ignored by most methods) of total length
+   384..1200, every forbidden byte class at the boundary positions of the 384-byte fields and at the very end */
+static void
+slab_longtail (int m, int li)
+{
+  static const int lens[] = { 383, 384, 385, 386, 400, 512, 767, 768, 1024, 1200 };
+  static const unsigned char bad[] = { ':', ';', '*', '!', '\\', ' ', '\n', 0x7f, 0x80, 0xff, 0x01, '\t' };
+  static char S[1300];
+  char rp[40];
+  int L = lens[li];
+  const char *base = vh_cheap[m][0];
+  size_t bl = strlen (base);
+  snprintf (rp, sizeof rp, "t:%d:%d", m, li);
+  int poss[6] = { 382, 383, 384, 385, L - 2, L - 1 };
+  for (int pk = 0; pk < 6; pk++)
+    {
+      int pos = poss[pk];
+      if (pos < (int) bl + 1 || pos >= L)
+        continue;
+      for (unsigned bi = 0; bi < sizeof bad; bi++)
+        {
+          memcpy (S, base, bl);
+          S[bl] = '$';
+          for (int i = (int) bl + 1; i < L; i++)
+            S[i] = A64[(i * 5 + 1) % 64];
+          S[L] = 0;
+          S[pos] = (char) bad[bi];
+          all_ways (m, "pw", S, 1, "forbidden-byte-in-a-long-tail", rp, bi == 0 && pk < 4);
+          vh_stat ("long_tail_cases", 1);
+        }
+    }
+}
+
 
 /* unknown prefixes: '$' + every 1- and 2-character tag + '$' that no method owns */
 static const char TAGCH[] = A64 ",";
@@ -583,6 +616,8 @@ main (int argc, char **argv)
         slab_fixed (a);
       else if (sscanf (vh_replay, "u:%d", &a) == 1)
         slab_unknown (a);
+      else if (sscanf (vh_replay, "t:%d:%d", &a, &b) == 2)
+        slab_longtail (a, b);
       else if (sscanf (vh_replay, "z:%d", &a) == 1)
         slab_sizes (a);
       else if (!strncmp (vh_replay, "h:", 2))
@@ -605,6 +640,10 @@ main (int argc, char **argv)
       slab_unknown (t);
   if (vh_mine (idx++))
     histories ();
+  for (int m = 0; m < M_COUNT; m++)
+    for (int li = 0; li < 10; li++)
+      if (vh_mine (idx++))
+        slab_longtail (m, li);
   for (int m = 0; m < M_COUNT && !vh_expired (); m++)
     for (int b = 0; b < 3; b++)
       {
